@@ -15,6 +15,7 @@ package main
 
 import (
 	"fmt"
+	"go/constant"
 	"go/token"
 	"go/types"
 	"sort"
@@ -526,6 +527,14 @@ func (p *prover) verifyStructInvs(c *Ctx) {
 					ta, oka := get(f.a)
 					tb, okb := get(f.b)
 					cons := fmt.Sprintf("%s re-established by the stores in block %d", f.text, k.blk.Index)
+					if oka && !okb && f.b.isLen {
+						// the length is not at hand in this function, but it is never negative: a constant that is at most c
+						// satisfies a <= len + c whatever the length is (a helper that only resets the offsets to zero)
+						if k, isK := ta.v.(*ssa.Const); (ta.v == nil && 0 <= f.c) || (isK && !ta.isLn && k.Value != nil && k.Value.Kind() == constant.Int && k.Int64() <= f.c) {
+							c.ok("C07.R1i", fn, cons, lastInstr.Pos(), "the stored value is a constant not above the bound's offset, and a length is never negative")
+							continue
+						}
+					}
 					if !oka || !okb {
 						c.bad("C07.R1i", fn, cons, lastInstr.Pos(), "the function never reads the slice field of the same object: its length is not available to compare with")
 						okAll = false
